@@ -367,6 +367,13 @@ fn shape_member(obj: &serde_json::Map<String, Value>, s: &Shape, env: &Env, fuel
             if !tys.iter().all(|t| member_fuel(v, t, env, fuel - 1)) {
                 return false;
             }
+            // an index signature that admits the key constrains the property as well
+            // (`{ a: number } & Record<string, never>` has `a: never`)
+            for (kt, vt, _) in &s.index {
+                if key_member(k, kt, env, fuel - 1) && !member_fuel(v, vt, env, fuel - 1) {
+                    return false;
+                }
+            }
             continue;
         }
         let mut admitted = false;
